@@ -1,8 +1,298 @@
-//! C06 observations (see props/c06.py for the consumer).
-#![allow(unused_imports, dead_code)]
+//! C06 observations (consumer: props/c06.py).  Also exports the setup generator and the scalar dump shared with C05.
+//!
+//! kinds:  "pt"     one (setup, omega_s, omega_i): every scalar input of get_pm_integrand / the normalisation (the fields of
+//!                  coq/Model/PMParams.v, read through public accessors), the integrand at a few z, fibre-coupled
+//!                  amplitude, jsa_raw, norm, jsa, jsi — for the setup and for with_swapped_signal_idler() at (omega_i, omega_s)
+//!         "rates"  counts_coincidences / counts_singles_signal / counts_singles_idler and jsi_singles(_idler)_range on a
+//!                  small grid, for the setup and its exchanged twin (transposed grid)
+//!         "skip"   generator produced a setup the library cannot build (no optimum idler / poling, panic in the constructor)
+#![allow(unused_imports, dead_code, non_snake_case)]
 use crate::common::*;
-use serde_json::json;
+use serde_json::{json, Value};
+use spdcalc::beam::{Beam, BeamWaist, IdlerBeam, PumpBeam, SignalBeam};
+use spdcalc::dim::f64prefixes::*;
+use spdcalc::dim::ucum::{self, DEG, HZ, K, M, MILLIW, RAD, S, V};
+use spdcalc::jsa::{FrequencySpace, JointSpectrum};
+use spdcalc::math::Integrator;
+use spdcalc::utils::{from_celsius_to_kelvin, vacuum_wavelength_to_frequency};
+use spdcalc::*;
 
-pub fn run(_args: &[String]) {
-  emit(json!({"kind": "not_implemented", "property": "C06"}));
+pub struct Gen {
+  pub collinear: bool,
+  pub min_waist: f64,
+  pub max_waist: f64,
+  pub apodize: bool,
+  pub equal_waists: bool,
+  pub elliptic: bool,
+}
+
+pub const POLED: [(CrystalType, PMType, f64); 7] = [
+  (CrystalType::KTP, PMType::Type2_e_eo, 90.),
+  (CrystalType::KTP, PMType::Type2_e_oe, 90.),
+  (CrystalType::KTP, PMType::Type0_e_ee, 90.),
+  (CrystalType::LiNbO3_1, PMType::Type0_e_ee, 90.),
+  (CrystalType::LiNb_MgO, PMType::Type0_e_ee, 90.),
+  (CrystalType::KTP, PMType::Type0_o_oo, 90.),
+  (CrystalType::BBO_1, PMType::Type1_e_oo, 30.),
+];
+pub const ANGLE_TUNED: [(CrystalType, PMType); 6] = [
+  (CrystalType::BBO_1, PMType::Type1_e_oo),
+  (CrystalType::BBO_1, PMType::Type2_e_eo),
+  (CrystalType::BBO_1, PMType::Type2_e_oe),
+  (CrystalType::KDP_1, PMType::Type1_e_oo),
+  (CrystalType::LiIO3_1, PMType::Type1_e_oo),
+  (CrystalType::BiBO_1, PMType::Type1_e_oo),
+];
+
+pub fn random_apodization(rng: &mut Rng, length_m: f64) -> Apodization {
+  match rng.below(8) {
+    0 => Apodization::Gaussian { fwhm: rng.range(0.4, 1.5) * length_m * M },
+    1 => Apodization::Bartlett(rng.range(1.05, 2.0)),
+    2 => Apodization::Blackman(rng.range(1.2, 2.0)),
+    3 => Apodization::Connes(rng.range(1.05, 2.0)),
+    4 => Apodization::Cosine(rng.range(1.05, 2.0)),
+    5 => Apodization::Hamming(rng.range(1.0, 2.0)),
+    6 => Apodization::Welch(rng.range(1.05, 2.0)),
+    _ => Apodization::Interpolate((0..rng.below(6) + 2).map(|_| rng.range(0.2, 1.0)).collect()),
+  }
+}
+
+/// A random setup.  Returns Err(reason) when the library cannot build it.
+pub fn random_setup(rng: &mut Rng, g: &Gen) -> Result<(SPDC, Value), String> {
+  let poled = rng.below(10) < 6;
+  let (crystal, pm_type, theta0) = if poled {
+    rng.pick(&POLED).clone()
+  } else {
+    let (c, t) = rng.pick(&ANGLE_TUNED).clone();
+    (c, t, 45.)
+  };
+  let length = rng.log_range(0.5e-3, 20e-3);
+  let temp_c = rng.range(15., 60.);
+  let lp = rng.range(380e-9, 800e-9);
+  // signal wavelength: non-degenerate by up to +-25 %, exactly degenerate now and then
+  let ls = if rng.below(8) == 0 { 2. * lp } else { 2. * lp * rng.range(0.78, 1.25) };
+  let wp = rng.log_range(g.min_waist, g.max_waist);
+  let ws = rng.log_range(g.min_waist, g.max_waist);
+  let wi = if g.equal_waists { ws } else { rng.log_range(g.min_waist, g.max_waist) };
+  let phi_s = if g.collinear { 0. } else { rng.range(0., 360.) };
+  let theta_s_ext = if g.collinear { 0. } else { rng.range(0.2, 4.0) };
+  let phi_c = if rng.coin() { 0. } else { rng.range(0., 90.) };
+  let mut cs = CrystalSetup {
+    crystal: crystal.clone(),
+    pm_type,
+    phi: phi_c * DEG,
+    theta: theta0 * DEG,
+    length: length * M,
+    temperature: from_celsius_to_kelvin(temp_c),
+    counter_propagation: false,
+  };
+  let pump_waist = if g.elliptic && rng.coin() { BeamWaist { x: wp * M, y: wp * rng.range(0.6, 1.6) * M } } else { BeamWaist::new(wp * M) };
+  let pump: PumpBeam = Beam::new(pm_type.pump_polarization(), 0. * RAD, 0. * RAD, lp * M, pump_waist).into();
+  let sig_waist = if g.elliptic && rng.coin() { BeamWaist { x: ws * M, y: ws * rng.range(0.6, 1.6) * M } } else { BeamWaist::new(ws * M) };
+  let mut signal: SignalBeam = Beam::new(pm_type.signal_polarization(), phi_s * DEG, 0. * RAD, ls * M, sig_waist).into();
+  let apod = if poled && g.apodize && rng.below(4) != 0 { random_apodization(rng, length) } else { Apodization::Off };
+  let desc = json!({"crystal": crystal.to_string(), "pm_type": pm_type.to_str(), "poled": poled, "length_m": length, "temp_c": temp_c,
+    "lambda_p_m": lp, "lambda_s_m": ls, "wp_m": wp, "ws_m": ws, "wi_m": wi, "phi_s_deg": phi_s, "theta_s_ext_deg": theta_s_ext,
+    "phi_c_deg": phi_c, "apodization": apod.kind()});
+  let built = guarded(move || -> Result<SPDC, String> {
+    if !g_collinear(theta_s_ext) {
+      signal.set_theta_external(theta_s_ext * DEG, &cs);
+    }
+    let pp = if poled {
+      PeriodicPoling::try_new_optimum(&signal, &pump, &cs, apod).map_err(|e| format!("poling: {}", e))?
+    } else {
+      cs.assign_optimum_theta(&signal, &pump);
+      if !g_collinear(theta_s_ext) {
+        signal.set_theta_external(theta_s_ext * DEG, &cs);
+      }
+      PeriodicPoling::Off
+    };
+    let mut idler = IdlerBeam::try_new_optimum(&signal, &pump, &cs, &pp).map_err(|e| format!("idler: {}", e))?;
+    idler.set_waist(BeamWaist::new(wi * M));
+    let zs = cs.optimal_waist_position(signal.vacuum_wavelength(), signal.polarization());
+    let zi = cs.optimal_waist_position(idler.vacuum_wavelength(), idler.polarization());
+    Ok(SPDC::new(cs, signal, idler, pump, 1e-9 * M, 100. * MILLIW, 1e-2, pp, zs, zi, 7.6e-12 * M / V))
+  });
+  let mut spdc = match built {
+    Ok(Ok(s)) => s,
+    Ok(Err(e)) => return Err(e),
+    Err(p) => return Err(format!("panic: {}", p)),
+  };
+  // pump bandwidth, power, deff, threshold, waist positions: free parameters of the property
+  spdc.pump_bandwidth = rng.log_range(0.05e-9, 8e-9) * M;
+  spdc.pump_average_power = rng.range(1., 500.) * MILLIW;
+  spdc.deff = rng.range(0.5e-12, 12e-12) * M / V;
+  spdc.pump_spectrum_threshold = *rng.pick(&[1e-2, 1e-3, 1e-9]);
+  if rng.below(3) != 0 {
+    spdc.signal_waist_position = -rng.range(0., 1.) * length * M;
+    spdc.idler_waist_position = -rng.range(0., 1.) * length * M;
+  }
+  Ok((spdc, desc))
+}
+
+fn g_collinear(theta_s_ext: f64) -> bool {
+  theta_s_ext == 0.
+}
+
+/// every scalar the integrand / normalisation reads, through the same public accessors the library uses
+pub fn dump_params(spdc: &SPDC, ws: Frequency, wi: Frequency, zs: &[f64]) -> Value {
+  let cs = &spdc.crystal_setup;
+  let L = spdc.crystal_setup.length;
+  let raw = |f: Frequency| *(f / (RAD / S));
+  let apod: Vec<Value> = zs.iter().map(|z| fx(spdc.pp.integration_constant(*z, L))).collect();
+  let mut a = json!({
+    "L": fx(*(L / M)),
+    "phi_s": fx(*(spdc.signal.phi() / RAD)), "phi_i": fx(*(spdc.idler.phi() / RAD)),
+    "theta_s": fx(*(spdc.signal.theta_internal() / RAD)), "theta_i": fx(*(spdc.idler.theta_internal() / RAD)),
+    "theta_s_e": fx(*(spdc.signal.theta_external(cs) / RAD)), "theta_i_e": fx(*(spdc.idler.theta_external(cs) / RAD)),
+    "wsx": fx(*(spdc.signal.waist().x / M)), "wsy": fx(*(spdc.signal.waist().y / M)),
+    "wix": fx(*(spdc.idler.waist().x / M)), "wiy": fx(*(spdc.idler.waist().y / M)),
+    "wpx": fx(*(spdc.pump.waist().x / M)), "wpy": fx(*(spdc.pump.waist().y / M)),
+    "z0s": fx(*(spdc.signal_waist_position / M)), "z0i": fx(*(spdc.idler_waist_position / M)),
+    "dirz_s": fx(spdc.signal.direction().z), "dirz_i": fx(spdc.idler.direction().z),
+    "omega_s": fx(raw(ws)), "omega_i": fx(raw(wi)),
+    "n_p": fx(*spdc.pump.refractive_index(ws + wi, cs)),
+    "n_s": fx(*spdc.signal.refractive_index(ws, cs)),
+    "n_i": fx(*spdc.idler.refractive_index(wi, cs)),
+    "rho": fx(*(spdc.pump.walkoff_angle(cs) / RAD)),
+    "k_eff": fx(*(spdc.pp.k_eff() / (RAD / M))),
+    "apod": apod,
+    "pp_on": spdc.pp != PeriodicPoling::Off,
+    "lambda_p": fx(*(spdc.pump.vacuum_wavelength() / M)),
+    "omega_p0": fx(raw(spdc.pump.frequency())),
+    "bw": fx(*(spdc.pump_bandwidth / M)),
+    "power": fx(spdc.pump_average_power.value_unsafe),
+    "deff": fx(spdc.deff.value_unsafe),
+    "thr": fx(spdc.pump_spectrum_threshold),
+  });
+  let b = json!({
+    "lambda_s": fx(*(spdc.signal.vacuum_wavelength() / M)), "lambda_i": fx(*(spdc.idler.vacuum_wavelength() / M)),
+    "omega_s0": fx(raw(spdc.signal.frequency())), "omega_i0": fx(raw(spdc.idler.frequency())),
+    "n_s0": fx(*spdc.signal.refractive_index(spdc.signal.frequency(), cs)),
+    "n_i0": fx(*spdc.idler.refractive_index(spdc.idler.frequency(), cs)),
+    "n_p0": fx(*spdc.pump.refractive_index(spdc.pump.frequency(), cs)),
+    "ng_s": fx(*spdc.signal.group_index(cs, PeriodicPoling::Off)),
+    "ng_i": fx(*spdc.idler.group_index(cs, PeriodicPoling::Off)),
+    "ng_p": fx(*spdc.pump.group_index(cs, PeriodicPoling::Off)),
+    "pm_type": spdc.crystal_setup.pm_type.to_str(),
+    "pol_s": format!("{:?}", spdc.signal.polarization()), "pol_i": format!("{:?}", spdc.idler.polarization()),
+  });
+  if let (Value::Object(ma), Value::Object(mb)) = (&mut a, b) {
+    ma.extend(mb);
+  }
+  a
+}
+
+pub fn cx(c: Complex<f64>) -> Value {
+  json!([fx(c.re), fx(c.im)])
+}
+
+/// integrand values at the given z, fibre coupling, raw jsa, norm, jsa, jsi at one frequency pair
+pub fn dump_values(spdc: &SPDC, js: &JointSpectrum, ws: Frequency, wi: Frequency, zs: &[f64], integ: Integrator) -> Value {
+  let f = get_pm_integrand(ws, wi, spdc);
+  let vals: Vec<Value> = zs.iter().map(|z| cx(f(*z))).collect();
+  let pmf = *(phasematch_fiber_coupling(ws, wi, spdc, integ) / PerMeter4::new(1.));
+  let raw = jsa_raw(ws, wi, spdc, integ);
+  let norm = *(jsi_normalization(ws, wi, spdc) / JsiNorm::new(1.));
+  let alpha = pump_spectral_amplitude(ws + wi, spdc);
+  json!({"integrand": vals, "fiber": cx(pmf), "jsa_raw": cx(raw), "norm": fx(norm), "alpha": fx(alpha),
+    "jsa": cx(js.jsa(ws, wi)), "jsi": fx(*(js.jsi(ws, wi) / JSIUnits::new(1.))),
+    "jsi_singles": fx(*(js.jsi_singles(ws, wi) / JSIUnits::new(1.))),
+    "corr": fx(spdc::get_counts_correction(spdc))})
+}
+
+pub fn random_zs(rng: &mut Rng, n: usize) -> Vec<f64> {
+  let mut zs = vec![-1.0, 1.0];
+  for _ in 0..n {
+    zs.push(rng.range(-1., 1.));
+  }
+  zs
+}
+
+pub fn run(args: &[String]) {
+  let seed = arg_u64(args, 0, 1);
+  let n = arg_u64(args, 1, 20) as usize;
+  let nrates = arg_u64(args, 2, 2) as usize;
+  let mut rng = Rng::new(seed);
+  let integ = Integrator::default();
+  let mut made = 0usize;
+  let mut tries = 0usize;
+  while made < n && tries < 20 * n + 20 {
+    tries += 1;
+    let g = Gen {
+      collinear: rng.below(6) == 0,
+      min_waist: 30e-6,
+      max_waist: 400e-6,
+      apodize: true,
+      equal_waists: rng.below(6) == 0,
+      elliptic: rng.below(4) == 0,
+    };
+    let (spdc, desc) = match random_setup(&mut rng, &g) {
+      Ok(x) => x,
+      Err(e) => {
+        emit(json!({"kind": "skip", "why": e}));
+        continue;
+      }
+    };
+    let swapped = spdc.clone().with_swapped_signal_idler();
+    let js = match guarded(|| (JointSpectrum::new(spdc.clone(), integ), JointSpectrum::new(swapped.clone(), integ))) {
+      Ok(x) => x,
+      Err(e) => {
+        emit(json!({"kind": "skip", "why": format!("JointSpectrum::new panicked: {}", e), "setup": desc}));
+        continue;
+      }
+    };
+    made += 1;
+    let ws0 = spdc.signal.frequency();
+    let wi0 = spdc.idler.frequency();
+    let lambda_p = spdc.pump.vacuum_wavelength();
+    let sigma = fwhm_to_spectral_width(lambda_p, spdc.pump_bandwidth);
+    let npts = 3;
+    for k in 0..npts {
+      // frequency pairs: the centre, then detuned (sum within ~1 pump width, difference anywhere inside a few widths)
+      let (ds, di) = if k == 0 { (0., 0.) } else { (rng.range(-1.2, 1.2), rng.range(-1.2, 1.2)) };
+      let ws = ws0 + ds * sigma;
+      let wi = wi0 + di * sigma;
+      let zs = random_zs(&mut rng, 3);
+      let a = guarded(|| (dump_params(&spdc, ws, wi, &zs), dump_values(&spdc, &js.0, ws, wi, &zs, integ)));
+      let b = guarded(|| (dump_params(&swapped, wi, ws, &zs), dump_values(&swapped, &js.1, wi, ws, &zs, integ)));
+      match (a, b) {
+        (Ok((pa, va)), Ok((pb, vb))) => emit(json!({"kind": "pt", "setup": desc, "id": made, "k": k,
+          "zs": fxs(&zs), "p": pa, "v": va, "p_sw": pb, "v_sw": vb})),
+        (a, b) => emit(json!({"kind": "pt_panic", "setup": desc, "id": made, "k": k,
+          "orig": a.err(), "swapped": b.err()})),
+      }
+    }
+    if made <= nrates {
+      // rates on a small grid around the centre; the exchanged setup is evaluated on the transposed grid
+      let r = 5usize;
+      let span = 1.5 * sigma;
+      let range = FrequencySpace::new((ws0 - span, ws0 + span, r), (wi0 - span, wi0 + span, r));
+      let range_t = FrequencySpace::new((wi0 - span, wi0 + span, r), (ws0 - span, ws0 + span, r));
+      let raw = |h: ucum::Hertz<f64>| *(h / HZ);
+      let res = guarded(|| {
+        let cc = raw(spdc.counts_coincidences(range, integ));
+        let cc_sw = raw(swapped.counts_coincidences(range_t, integ));
+        let ss = raw(spdc.counts_singles_signal(range, integ));
+        let si = raw(spdc.counts_singles_idler(range, integ));
+        let ss_sw = raw(swapped.counts_singles_signal(range_t, integ));
+        let si_sw = raw(swapped.counts_singles_idler(range_t, integ));
+        let corr = spdc::get_counts_correction(&spdc);
+        let corr_sw = spdc::get_counts_correction(&swapped);
+        let jsi_idler: Vec<f64> = js.0.jsi_singles_idler_range(range).iter().map(|x| *(*x / JSIUnits::new(1.))).collect();
+        // the exchanged setup's signal singles on the transposed grid, re-ordered to the original grid's order
+        let sw_sig: Vec<f64> = js.1.jsi_singles_range(range_t).iter().map(|x| *(*x / JSIUnits::new(1.))).collect();
+        let jsi: Vec<f64> = js.0.jsi_range(range).iter().map(|x| *(*x / JSIUnits::new(1.))).collect();
+        let jsi_sw: Vec<f64> = js.1.jsi_range(range_t).iter().map(|x| *(*x / JSIUnits::new(1.))).collect();
+        json!({"cc": fx(cc), "cc_sw": fx(cc_sw), "ss": fx(ss), "si": fx(si), "ss_sw": fx(ss_sw), "si_sw": fx(si_sw),
+          "corr": fx(corr), "corr_sw": fx(corr_sw), "res": r,
+          "jsi_idler": fxs(&jsi_idler), "sw_signal_t": fxs(&sw_sig), "jsi": fxs(&jsi), "jsi_sw_t": fxs(&jsi_sw)})
+      });
+      match res {
+        Ok(v) => emit(json!({"kind": "rates", "setup": desc, "id": made, "r": v})),
+        Err(e) => emit(json!({"kind": "rates_panic", "setup": desc, "id": made, "why": e})),
+      }
+    }
+  }
+  emit(json!({"kind": "done", "made": made, "tries": tries}));
 }
